@@ -52,3 +52,10 @@ Proof.
 Qed.
 Theorem dec_inv n : n < 2^64 -> undec (dec n) = n.
 Proof. intro H. unfold dec. apply dec_rev_inv. change (N.of_nat 25) with 25. assert (2^64 < 10^25) by reflexivity. lia. Qed.
+
+Lemma dec_rev_nonempty fuel n : (0 < fuel)%nat -> (1 <= length (dec_rev fuel n))%nat.
+Proof. destruct fuel as [|f]; [lia|]. intros _. cbn [dec_rev]. destruct (n <? 10); cbn; lia. Qed.
+Lemma dec_rev_all_digits : forall fuel n, Forall (fun c => 48 <= c <= 57) (dec_rev fuel n).
+Proof.
+  induction fuel as [|f IH]; intro n; cbn [dec_rev]; [constructor|]. destruct (n <? 10) eqn:E; constructor; try lia; [constructor|apply IH].
+Qed.
